@@ -2,5 +2,6 @@ package verifrun
 
 import (
 	_ "verif/c01"
+	_ "verif/c03"
 	_ "verif/c04"
 )
